@@ -6,9 +6,11 @@ def fmt(v):
     return ",".join(str(x) for x in v) if v else "-"
 
 
-def label_to_line(lab, rng, no_list=False):
+def label_to_line(lab, rng, no_list=False, input_it=False):
     name, args = core.parse_label(lab)
     if name == "CreateFrom":
+        if input_it and rng.random() < 0.3:
+            return "CreateFrom %d %s 2" % (args[0], fmt(args[1]))      # range given by single-pass input iterators
         return "CreateFrom %d %s %d" % (args[0], fmt(args[1]), 1 if not no_list and len(args[1]) <= 5 and rng.random() < 0.5 else 0)
     return " ".join([name] + [str(a) for a in args])
 
@@ -47,7 +49,7 @@ def graph_scripts(ctx, g, kinds, keep=False, old_vec=False):
                 continue
             out.append("R %s %s %d" % (kind, elem, cap))
             for (lab, s, d) in w:
-                out.append(label_to_line(lab, ctx.rng, no_list=old_vec))
+                out.append(label_to_line(lab, ctx.rng, no_list=old_vec, input_it=(kind == "svec" and not keep)))
                 if ctx.rng.random() < 0.15:
                     st = core.parse_state(g.state[d])
                     qs = queries(ctx.rng, st, kind, old_vec)
@@ -71,6 +73,7 @@ def random_script(rng, kind, elem, cap, nops, old_iface=False, old_vec=False):
             elif r < 0.7 or not ex[d]:
                 s = [rng.randrange(1, 100) for _ in range(rng.randrange(0, (2 * cap + 1) if cap else 7))]
                 il = 1 if not old_vec and len(s) <= 5 and rng.random() < 0.5 else 0
+                if kind == "svec" and not old_iface and rng.random() < 0.25: il = 2
                 lines.append("CreateFrom %d %s %d" % (c, fmt(s), il)); ex[c] = True; el[c] = cut(s)
             elif r < 0.85: lines.append("CopyCtor %d %d" % (c, d)); ex[c] = True; el[c] = list(el[d])
             else:
